@@ -664,7 +664,8 @@ def r10_9_walk_reaches_registered_ancestors(ctx, rid='R10.9'):
             reg_guard = [t for t in f.guard_texts(c) if t.startswith('%s in ' % bv) and ('registered' in t or 'yaml_representers' in t)]
             (gated if reg_guard else free).append(c)
         if not rec:
-            raise AnalysisError('anchor missing: recursive call of %s' % name)
+            r.ok('%s: no recursive walk over the bases (its shape is R10.2\'s business)' % f.fi.qual)
+            continue
         r.check(bool(free) or not gated, '%s: the walk goes on through classes that are not registered' % f.fi.qual,
                 f.key('walk-stops-at-unregistered-base'), f.loc(gated[0]) if gated else f.loc(),
                 '%s descends only into registered base classes: with C(B), B(A) and only A and C registered, the walk from C ends at B and '
